@@ -264,6 +264,29 @@ class HistoryStateDiffers(Exception):
 FLAVOURS = ["tuple", "stack", "aliased", "readonly", "fortran", "view", "int", "f32"]
 
 
+def intdiag_cases(ctx, r):
+    """integer positions with diagonal steps (lengths sqrt2, sqrt3, sqrt5, ...), identity rotations, handed over as int64
+    (or float) pose matrices: the path lengths are not integers, so a length computed in the poses' dtype shows"""
+    for k in range(60 if not ctx.thorough else 400):
+        n = r.randint(3, 9)
+        p = [r.randint(-3, 3) for _ in range(3)]
+        pos = [[float(x) for x in p]]
+        for _ in range(n - 1):
+            v = r.choice([(1, 1, 0), (1, 0, 1), (0, 1, 1), (1, 1, 1), (2, 1, 0), (1, 2, 0), (1, 0, 0), (0, 2, 0), (2, 2, 1)])
+            sg = [r.choice((-1, 1)) for _ in range(3)]
+            p = [a_ + s_ * b_ for a_, s_, b_ in zip(p, sg, v)]
+            pos.append([float(x) for x in p])
+        base = {"kind": "random", "shape": "intdiag", "pos": pos, "rv": [[0.0, 0.0, 0.0]] * n}
+        if k % 3 != 2:
+            base["flavour"] = "int"
+        d = r.choice([1.2, 1.6, 2.0, 2.6, 2.8, 3.3, 4.0, 4.9, 6.1])
+        allp = k % 2 == 0
+        if k % 4 < 2:
+            yield {**base, "fn": "path", "all": allp, "delta": d, "t": d * r.choice([0.05, 0.1]) if allp else 0.0}
+        else:
+            yield {**base, "fn": "delta", "unit": "m", "all": allp, "delta": d, "t": r.choice([0.05, 0.1])}
+
+
 def flavour_ok(case, fl):
     """int / float32 matrices only where they hold the same values (integer positions, rotations by
     multiples of 90 degrees)"""
@@ -385,6 +408,8 @@ def apply_ops_spec(init, ops):
         elif op[0] == "transform":      # left multiplication by a rotation of m*90 degrees about `axis` + translation
             pos = [[a + b for a, b in zip(rot90_vec(p, axis, op[1]), op[2])] for p in pos]
             rk = [k + 4 * op[1] for k in rk]
+        elif op[0] == "project":        # in-place projection: the coordinate along the plane normal becomes 0 (the pose
+            pos = [[0.0 if i == op[1] else x for i, x in enumerate(p)] for p in pos]     # list object stays the same one)
     return {"pos": [[float(x) for x in p] for p in pos], "rk": rk, "axis": axis}
 
 
@@ -404,6 +429,9 @@ def apply_op_evo(traj, op, axis):
         T = rot90_matrix(axis, op[1])
         T[:3, 3] = op[2]
         traj.transform(T)
+    elif op[0] == "project":
+        from evo.core.trajectory import Plane
+        traj.project({2: Plane.XY, 1: Plane.XZ, 0: Plane.YZ}[op[1]])
 
 
 def decoy_poses(case):
@@ -1154,11 +1182,25 @@ def history_cases(ctx, r, L, INC):
                 ops.append(["reduce", ids])
             else:
                 ops.append(["transform", r.randint(1, 3), [float(2 * r.randint(-3, 3)) for _ in range(3)]])
-        if any(op[0] == "reduce" for op in ops):      # any subset must keep integer step lengths: poses on a line
+        u = r.choice(["m", "m", "m", "rad", "deg", "f"])
+        if u == "m" and r.random() < 0.45:
+            # an in-place projection between two evaluations (meters only: the selection then looks at positions alone);
+            # at most one, a second projection of the same object is refused
+            ops.insert(r.randint(0, len(ops)), ["project", r.randint(0, 2)])
+            ops = ops[:3]
+        if any(op[0] in ("reduce", "project") for op in ops):      # any subset / projection must keep integer step lengths: poses on a line
             e, x0 = r.choice(AX), [2.0 * r.randint(-3, 3) for _ in range(3)]
             acc = [0] + [sum(lens[:k + 1]) for k in range(n - 1)]
             init["pos"] = [[a + 2.0 * d * b for a, b in zip(x0, e)] for d in acc]
-        u = r.choice(["m", "m", "m", "rad", "deg", "f"])
+            if not any(op[0] == "reduce" for op in ops):
+                # projection only: axis-parallel steps in changing directions — the steps along the plane normal vanish,
+                # the others keep their (integer) length, so the pairs before and after the projection differ
+                p_, pts = list(x0), [list(x0)]
+                for ln in lens:
+                    ax_ = r.randrange(3)
+                    p_ = [v + (2.0 * ln * r.choice((-1, 1)) if i == ax_ else 0.0) for i, v in enumerate(p_)]
+                    pts.append(list(p_))
+                init["pos"] = pts
         c = {"kind": "grid", "fn": "delta", "via": "rpe", "unit": u, "all": r.random() < 0.5, "from_ref": r.random() < 0.6,
              "t": r.choice([0.0, 0.5, 0.1, 0.25]), "init": init}
         if u == "m":
@@ -1178,6 +1220,7 @@ def gen_cases(ctx):
     """all streams; a third of the exact-grid cases hand the poses over in another flavour (L3), a third of
     the class-route cases reuse the RPE object / build the trajectory another way (L1, L4)"""
     r2 = random.Random(f"C10-decor/{ctx.seed}")
+    yield from intdiag_cases(ctx, random.Random(f"C10-intdiag/{ctx.seed}"))
     for c in gen_base(ctx):
         if "init" in c:
             yield c
